@@ -11,6 +11,7 @@ import (
 
 	"verif/internal/core"
 	"verif/prop"
+	"verif/prop/c11"
 )
 
 func main() {
@@ -19,7 +20,12 @@ func main() {
 	seed := flag.Int64("seed", 1, "seed for every random choice")
 	replay := flag.String("replay", "", "replay file to re-run")
 	list := flag.Bool("list", false, "list implemented properties")
+	worker := flag.String("worker", "", "internal: run as a child worker of the named property")
 	flag.Parse()
+	if *worker == "C11" {
+		c11.Worker(flag.Args())
+		return
+	}
 	if *list {
 		var ids []string
 		for k := range prop.All {
